@@ -42,6 +42,13 @@ GeneRow(n, c, D) == [op |-> "gene", n |-> n, c |-> c, D |-> D, den |-> D * n,
 ASSUME \A a \in Rates4 : PrintT(<<"LAW", ToJson(MaskLawRow("coins", 3, a, D4))>>)
 ASSUME PrintT(<<"LAW", ToJson(MaskLawRow("coins", 3, 1, 2))>>)
 ASSUME \A n \in 2..4 : PrintT(<<"LAW", ToJson(MaskLawRow("ool", n, 1, n))>>)
+(* any two genes of a long genome are decided independently (positions 1, 64 and 128 apart) *)
+ASSUME \A a \in {1, 2, 3} : PrintT(<<"LAW", ToJson(MaskLawRow("pair", 2, a, D4))>>)
+(* an empty parent receives one new gene with the configured empty-genome rate: one coin *)
+ASSUME \A a \in Rates4 : PrintT(<<"LAW", ToJson(MaskLawRow("umad_empty", 1, a, D4))>>)
+(* 1/length on a long genome: the per-gene rate is 1/n also when n exceeds 16 bits; one coin of rate 1/n *)
+ASSUME PrintT(<<"LAW", ToJson([op |-> "ool_long", n |-> 131072, a |-> 1, D |-> 131072, den |-> 131072,
+                               cells |-> <<[key |-> <<1>>, num |-> 1], [key |-> <<0>>, num |-> 131071]>>])>>)
 ASSUME \A r \in UmadRates : PrintT(<<"LAW", ToJson(UmadRow(r))>>)
 ASSUME \A c \in {0, 1, 2, 4} : PrintT(<<"LAW", ToJson(GeneRow(3, c, 4))>>)
 ASSUME \A n \in {1, 2, 3, 4, 8} : PrintT(<<"LAW", ToJson(GeneRow(n, 1, n + 1))>>)
